@@ -94,10 +94,6 @@ package obfs
 //@ iface obfuscator.Deobfuscate(ob, in, out) (n)
 //@   ensures 0 <= n && n <= len(out)
 //@   modifies out[0:len(out)]
-//@ iface net.PacketConn.ReadFrom(c, p) (n, addr, err)
-//@   ensures n <= len(p)
-//@   modifies p[0:len(p)]
-//@ iface net.PacketConn.WriteTo(c, p, addr) (n, err)
 
 //@ hook after call PacketConn.ReadFrom(c2, p2) (n2, a2, e2) in (*obfsPacketConn).ReadFrom
 //@   update lastInnerN = n2
